@@ -163,8 +163,16 @@ class C03(IRProp):
             for (bi, t, off, ln, patch, _) in case.mods:
                 if t != "del" and isinstance(patch, str) and "ret" in patch and bi in calls and off + ln == case.size(bi):
                     tgt = case.blocks[bi]["ins"][-1][1]
-                    if case.blocks[tgt].get("func") is not None and case.blocks[tgt].get("func") == case.blocks[bi].get("func"):
+                    if isinstance(tgt, int) and case.blocks[tgt].get("func") is not None and case.blocks[tgt].get("func") == case.blocks[bi].get("func"):
                         return "C03-patch-ret-behind-call-into-own-function"
+            # ... the same with the call itself coming from another patch of the same block
+            for (bi, t, off, ln, patch, _) in case.mods:
+                if t != "del" and isinstance(patch, str) and "ret" in patch and case.blocks[bi].get("func") is not None:
+                    for (bj, t2, off2, ln2, patch2, _) in case.mods:
+                        if bj == bi and t2 != "del" and isinstance(patch2, str) and off2 + ln2 <= off:
+                            for k_ in re.findall(r"call L(\d+)", patch2):
+                                if case.blocks[int(k_)].get("func") == case.blocks[bi].get("func"):
+                                    return "C03-patch-ret-behind-call-into-own-function"
             # F4: every ret of a function is deleted / replaced while a patch puts a new ret into the same function: the call sites are
             # only recorded as the Return edges of the function's ret blocks, so they are forgotten in between
             if not extra - {x for x in extra if x[1] == "proxy"} and all(x[0] == "Return" for x in missing):
